@@ -73,8 +73,8 @@ D3 = Tuple[int, int, int]
 def c02_equiv_dfa(dx: D2, sx: int, fx: int, dy: D2, sy: int, fy: int, yalpha: int) -> bool:
     """
     pre: pinned(sx=sx, sy=sy, fx=fx, yalpha=yalpha, dx0=dx[0])
-    pre: 0 <= dx[0] <= 2 and 0 <= dx[1] <= 2 and 0 <= sx <= 2 and 0 <= fx < 4
-    pre: 0 <= dy[0] <= 2 and 0 <= dy[1] <= 2 and 0 <= sy <= 2 and 0 <= fy < 4 and 0 <= yalpha < 2
+    pre: ((0 <= dx[0]) & (dx[0] <= 2)) & ((0 <= dx[1]) & (dx[1] <= 2)) & ((0 <= sx) & (sx <= 2)) & ((0 <= fx) & (fx < 4))
+    pre: ((0 <= dy[0]) & (dy[0] <= 2)) & ((0 <= dy[1]) & (dy[1] <= 2)) & ((0 <= sy) & (sy <= 2)) & ((0 <= fy) & (fy < 4)) & ((0 <= yalpha) & (yalpha < 2))
     post: _
     """
     raw = (dx, sx, fx, dy, sy, fy, yalpha)
@@ -134,10 +134,10 @@ T6 = Tuple[int, int, int, int, int, int]
 def c02_equiv_mixed(t: T6, m: int, sx: int, fx: int, dy: D4, sy: int, fy: int) -> bool:
     """
     pre: pinned(m=m, sx=sx, fx=fx, sy=sy, t1=t[1])
-    pre: 0 <= m <= 2 and 0 <= sx < 4 and 0 <= fx < 4
-    pre: all(0 <= t[3 * i] < 2 and 0 <= t[3 * i + 1] <= 2 and 0 <= t[3 * i + 2] < 2 for i in range(2))
+    pre: ((0 <= m) & (m <= 2)) & ((0 <= sx) & (sx < 4)) & ((0 <= fx) & (fx < 4))
+    pre: enc.sparse_ranges(t, 2, 2)
     pre: sparse_canonical(t, m)
-    pre: all(0 <= dy[i] <= 2 for i in range(4)) and 0 <= sy <= 2 and 0 <= fy < 4
+    pre: enc.in_range(dy, 3) & ((0 <= sy) & (sy <= 2)) & ((0 <= fy) & (fy < 4))
     post: _
     """
     raw = (t, m, sx, fx, dy, sy, fy)
@@ -191,7 +191,7 @@ def _minimal(cond, raw, n, k, edges, starts, finals, labels=None, order=None):
 def c02_minimal_31(d: D3, s: int, f: int, perm: int) -> bool:
     """
     pre: pinned(s=s, f=f, perm=perm, d0=d[0])
-    pre: all(0 <= d[i] <= 3 for i in range(3)) and 0 <= s <= 3 and 0 <= f < 8 and 0 <= perm < 6
+    pre: enc.in_range(d, 4) & ((0 <= s) & (s <= 3)) & ((0 <= f) & (f < 8)) & ((0 <= perm) & (perm < 6))
     post: _
     """
     edges, starts, fin = decode_dfa(d, s, f, 3, 1)
@@ -202,7 +202,7 @@ def c02_minimal_31(d: D3, s: int, f: int, perm: int) -> bool:
 def c02_minimal_22(d: D4, s: int, f: int) -> bool:
     """
     pre: pinned(s=s, f=f, d0=d[0])
-    pre: all(0 <= d[i] <= 2 for i in range(4)) and 0 <= s <= 2 and 0 <= f < 4
+    pre: enc.in_range(d, 3) & ((0 <= s) & (s <= 2)) & ((0 <= f) & (f < 4))
     post: _
     """
     edges, starts, fin = decode_dfa(d, s, f, 2, 2)
@@ -215,7 +215,7 @@ D6 = Tuple[int, int, int, int, int, int]
 def c02_minimal_32(d: D6, s: int, f: int) -> bool:
     """
     pre: pinned(s=s, f=f, d0=d[0], d1=d[1])
-    pre: all(0 <= d[i] <= 3 for i in range(6)) and 0 <= s <= 1 and 0 <= f < 8
+    pre: enc.in_range(d, 4) & ((0 <= s) & (s <= 1)) & ((0 <= f) & (f < 8))
     post: _
     """
     edges, starts, fin = decode_dfa(d, s, f, 3, 2)
@@ -228,7 +228,7 @@ D4b = Tuple[int, int, int, int]
 def c02_minimal_41(d: D4b, s: int, f: int) -> bool:
     """
     pre: pinned(s=s, f=f, d0=d[0])
-    pre: all(0 <= d[i] <= 4 for i in range(4)) and 0 <= s <= 1 and 0 <= f < 16
+    pre: enc.in_range(d, 5) & ((0 <= s) & (s <= 1)) & ((0 <= f) & (f < 16))
     post: _
     """
     edges, starts, fin = decode_dfa(d, s, f, 4, 1)
